@@ -1018,12 +1018,23 @@ class C09(Prop):
               "executable isometry check of C03 accepts the result (C09_store_canonical_root); induction over the tree (C09_store_update_node); "
               "local shape rule of the new basis (new bond = qr_new_leg of the product of the other legs and r resp. r_old + r; fixed rank keeps "
               "the shape: C09_store_new_basis_shape, C09_store_qr_rule_agrees)"),
+        ("F", "store level, ACCEPTANCE (Evo/BUGStoreTotal.v): for every tree with unique identifiers, every store with wfb = true whose parent / "
+              "children structure is the tree (tree_of: children recorded in the store, in any order), root = recorded centre = the tree's root, no "
+              "'<n>_basis_change_tensor' identifier and not the uuid of move_orthogonalization_center among the nodes, and exactly one open leg on "
+              "every leaf below the root (update_leaf_node's QR legs (1,), (0,), `.T`, tensordot([1],[1]); any number of open legs elsewhere), the "
+              "model ACCEPTS the step, both variants, no rank condition - the KEEP re-centring of the repaired code makes every shape comparison "
+              "succeed (C09_store_step_accepts; induction over the tree: C09_store_update_node_accepts). Hence unconditionally: the step completes, "
+              "keeps identifiers / parents / children sets, every temporary is gone, centre = root, iso_check holds, tables only grew "
+              "(C09_store_step_total; through the executable hypothesis checker bug_hypb: C09_store_step_checker, C09_store_step_total_checked; "
+              "the leaf condition is needed: C09_example_leaf_two_open_legs_rejected). NOT proved: wfb of the returned store (kernel-checked per "
+              "explored step only)"),
         ("F", "basis-change matrix as a diagram (compute_basis_change_tensor = the block recursion of contract_any_nodes between the old bases "
               "and the conjugated new bases, children's matrices = recursive calls): under the hypothesis checker bc_okb, legs = [old parent wire; "
               "conjugated new parent wire], atoms = old and conjugated new atoms of the subtree each once, every inner edge wire of both states "
               "bound, glued pairs = (old open wire, conjugated new open wire) per node of the subtree (C09_store_bc_diagram, cites C04's "
               "block_two_subtree_closed)"),
-        ("I", "per explored step (both copy strategies): the literal store printed from the caller's state satisfies wfb, the store model accepts the "
+        ("I", "per explored step (both copy strategies): the literal store printed from the caller's state satisfies wfb and the executable checker bug_hypb of "
+              "the hypotheses of the acceptance theorem (so that the model accepts is an instance of the theorem), the store model accepts the "
               "step, its observation of the result (node dict order, parents, children order, leg permutations, recorded shapes, tensor dict order, raw "
               "shapes, root, centre) equals the implementation's exactly, iso_check and wfb hold for the model's final store, shape_root of "
               "Sched/BUG.v predicts exactly the shapes of the store model's result (shapes_agree), bc_okb holds for every non-root node "
@@ -1037,7 +1048,10 @@ class C09(Prop):
     trusted_base = ["LAPACK QR/SVD/eigh and expm_multiply/expm are not modelled (validated numerically against the dense reference)",
                     "instrumentation: wrappers around the functions of time_evo_util/common_bug.py, SandwichCache/PartialTreeCachDict and "
                     "TreeTensorNetwork methods installed in the harness process; provenance of cached blocks followed by array identity",
-                    "the version of a tensor in a state of old bases is derived from that state's orthogonality_center_id (C03's subject)"]
+                    "the version of a tensor in a state of old bases is derived from that state's orthogonality_center_id (C03's subject)",
+                    "store-level acceptance (C09_store_step_accepts / _total) is a statement about the Gallina model Evo/BUGStore.v over the frozen "
+                    "store model; that the model's verdict (accept / reject, and the exception-free run of the code) agrees with common_bug.py is "
+                    "the per-step correspondence of harness/props/c09w.py, not a theorem"]
     assumptions = ["one open leg per node (what TTNO.from_hamiltonian supports)", "time-independent Hermitian Hamiltonian, time_evo_mode EXPM"]
 
     # ------------------------------------------------------------------------------------------
@@ -1052,7 +1066,9 @@ class C09(Prop):
             k = rng.choice([3, 4, 5, 5, 6, 6, maxn])
             trees.append((util.random_parents(rng, k), "random"))
         truncs = [None, None, [2, "-inf", "-inf", False], [3, "-inf", "-inf", False], [100, 1e-2, 1e-3, False], [100, 0.05, 0.0, False],
-                  ["inf", "-inf", 0.5, False], [1, "-inf", "-inf", False], [100, 0.0, 0.05, True], [4, 1e-3, 1e-3, False]]
+                  ["inf", "-inf", 0.5, False], [1, "-inf", "-inf", False], [100, 0.0, 0.05, True], [4, 1e-3, 1e-3, False],
+                  # sum mode with tiny tolerances: the maximum bond dimension is what binds
+                  [2, "-inf", 1e-12, True], [1, 0.0, 1e-9, True], [3, "-inf", 1e-12, True]]
         j = 0
         for par, src in trees:
             n = len(par)
